@@ -19,6 +19,13 @@
    The store is the list [odb.all()] of object ids (names are what gc decides on);
    the directory objects readable from cache_odb are an association list.
 
+   GENERATED PART (Gen/GcDecisions.v, translator unit "gc"): the read-only guard, the algorithm
+   filter (which hash_name it compares with), the expansion test and the source of Tree.load,
+   the used-test of the scan and whose .all() is scanned, the .dir partition, the two removal
+   guards, the lists counted/removed, the defaults of shallow/dry, HASH_DIR_SUFFIX,
+   HashInfo.isdir, and the statement sequence.  An edit of gc() either breaks the translation
+   (fail-closed) or changes these definitions - and then gc_eq / the tie lemmas in GcProofs.v.
+
    Not modelled: odb._remove_unpacked_dir(hash_), called for every unused .dir object (dry or
    not).  It removes the legacy side directory <object path>.unpacked on local-class stores;
    such directories are not objects of the store (odb.all() does not list them), so the state
@@ -39,7 +46,7 @@
    The store has no size bound and no paging in the model (C06_store_app); the harness runs
    stores beyond fs.LIST_OBJECT_PAGE_SIZE because an implementation could page its scan. *)
 From Coq Require Import NArith List Bool.
-From DvcData Require Import Base.Val.
+From DvcData Require Import Base.Val Gen.GcDecisions.
 Import ListNotations.
 Open Scope N_scope.
 
@@ -49,8 +56,9 @@ Definition dot_dir : list N := [46; 100; 105; 114].   (* ".dir" *)
 Definition ends_with (s suf : list N) : bool :=
   Nat.leb (length suf) (length s) && list_N_eqb (skipn (Nat.sub (length s) (length suf)) s) suf.
 
-(* HashInfo.isdir : value truthy and value.endswith(".dir") *)
-Definition is_dir_oid (o : oid) : bool := ends_with o dot_dir.
+(* HashInfo.isdir : value truthy and value.endswith(HASH_DIR_SUFFIX) - GENERATED from
+   hash_info.py (Gen/GcDecisions.v); GcProofs.is_dir_oid_spec: = ends_with o dot_dir *)
+Definition is_dir_oid (o : oid) : bool := GcDecisions.hashinfo_isdir o.
 
 Inductive load_res := LoadOk (l : list oid) | LoadMissing | LoadCorrupt.
 
@@ -69,9 +77,10 @@ Record gc_in := {
   g_used : list (list N * oid);  (* HashInfo (name, value) *)
   g_trees : list (oid * option (list oid));  (* cache_odb: dir oid -> Some listing | None = corrupt *)
   g_cache_alg : option (list N);  (* cache_odb.hash_name; None = cache_odb omitted (defaults to odb).
-                                     NOT read by gc: which ids count as used is decided by the
-                                     algorithm of the COLLECTED store (g_alg); the cache only
-                                     supplies the listings (g_trees).  C06_cache_alg_irrelevant. *)
+                                     Handed to the GENERATED algorithm filter next to g_alg; for
+                                     the source as it is the filter ignores it: which ids count as
+                                     used is decided by the algorithm of the COLLECTED store, the
+                                     cache only supplies the listings (C06_cache_alg_irrelevant). *)
   g_shallow : bool;
   g_dry : bool }.
 
@@ -85,31 +94,64 @@ Definition load (trees : list (oid * option (list oid))) (o : oid) : load_res :=
 (* error kinds: 1 = ObjectDBPermissionError, 2 = FileNotFoundError, 3 = ObjectFormatError *)
 Inductive gc_out := GcErr (k : N) | GcOk (removed : N) (store' : list oid).
 
-Fixpoint used_hashes (alg : list N) (shallow : bool) (ld : oid -> load_res)
+(* The DECISIONS below are not written by hand: GcDecisions.* is generated on every run from the
+   AST of gc.py (translator/gcunit.py, fail-closed on the statement sequence).  The loops'
+   structure is the hand-written part; Proofs/GcProofs.v (gc_eq) shows that with the decisions
+   of the current source this is the flat function gc_flat all theorems are proved about. *)
+Fixpoint used_hashes (alg calg : list N) (shallow dry : bool) (ld : oid -> load_res)
          (used : list (list N * oid)) (acc : list oid) : N + list oid :=
   match used with
   | [] => inr acc
   | (name, value) :: r =>
-      if negb (list_N_eqb name alg) then used_hashes alg shallow ld r acc
+      if GcDecisions.used_skip name alg calg dry shallow then used_hashes alg calg shallow dry ld r acc
       else
         let acc1 := value :: acc in
-        if is_dir_oid value && negb shallow then
+        if GcDecisions.expand (is_dir_oid value) dry shallow then
           match ld value with
-          | LoadOk l => used_hashes alg shallow ld r (l ++ acc1)
+          | LoadOk l => used_hashes alg calg shallow dry ld r (l ++ acc1)
           | LoadMissing => inl 2
           | LoadCorrupt => inl 3
           end
-        else used_hashes alg shallow ld r acc1
+        else used_hashes alg calg shallow dry ld r acc1
+  end.
+
+(* `if not cache_odb: cache_odb = odb` *)
+Definition cache_alg_eff (i : gc_in) : list N :=
+  match g_cache_alg i with Some a => a | None => g_alg i end.
+
+Definition pick_paths (dirs files : list oid) (w : GcDecisions.paths_list) : list oid :=
+  match w with GcDecisions.DirPaths => dirs | GcDecisions.FilePaths => files end.
+
+Definition paths_list_eqb (a b : GcDecisions.paths_list) : bool :=
+  match a, b with
+  | GcDecisions.DirPaths, GcDecisions.DirPaths | GcDecisions.FilePaths, GcDecisions.FilePaths => true
+  | _, _ => false
   end.
 
 Definition gc (i : gc_in) : gc_out :=
-  if g_ro i then GcErr 1 else
-  match used_hashes (g_alg i) (g_shallow i) (load (g_trees i)) (g_used i) [] with
+  let dry := g_dry i in
+  let sh := g_shallow i in
+  if GcDecisions.read_only_refused (g_ro i) dry sh then GcErr 1 else
+  match used_hashes (g_alg i) (cache_alg_eff i) sh dry (load (g_trees i)) (g_used i) [] with
   | inl k => GcErr k
   | inr u =>
-      let unused := filter (fun o => negb (mem o u)) (g_store i) in
-      let kept := filter (fun o => mem o u) (g_store i) in
-      GcOk (N.of_nat (length unused)) (if g_dry i then g_store i else kept)
+      (* the scan: skip the used ones, partition the others into dir_paths / file_paths *)
+      let unused := filter (fun o => negb (GcDecisions.scan_skip (mem o u) dry sh)) (g_store i) in
+      let to_dirs o := match GcDecisions.scan_target (GcDecisions.is_dir_hash o) dry sh with
+                       | GcDecisions.DirPaths => true | GcDecisions.FilePaths => false end in
+      let dirs := filter to_dirs unused in
+      let files := filter (fun o => negb (to_dirs o)) unused in
+      (* for paths in (<removal_lists>): if <counted>: num_removed += len(paths); if <removed>: remove *)
+      let lists := map (pick_paths dirs files) GcDecisions.removal_lists in
+      let n := fold_left (fun a l => if GcDecisions.counted (GcDecisions.nonempty l) dry sh
+                                     then a + N.of_nat (length l) else a) lists 0 in
+      (* an object is gone when it was appended to a list (not skipped) and the removal loop
+         removes that list; per object, so that stores of thousands stay linear to evaluate *)
+      let gone o := negb (GcDecisions.scan_skip (mem o u) dry sh) &&
+                    existsb (fun w => paths_list_eqb w (GcDecisions.scan_target (GcDecisions.is_dir_hash o) dry sh) &&
+                                      GcDecisions.removed (GcDecisions.nonempty (pick_paths dirs files w)) dry sh)
+                            GcDecisions.removal_lists in
+      GcOk n (filter (fun o => negb (gone o)) (g_store i))
   end.
 
 (* literal helper for the harness (large stores): the 32-character lower-case hex name of a
